@@ -116,6 +116,7 @@ fn close<T: Sc>(a: &[T], b: &[T]) -> bool {
 }
 
 pub struct RunOut {
+    pub differs_from_clean: bool,
     pub events: Vec<Value>,
     pub termination: String,
     pub calls: usize,
@@ -442,6 +443,7 @@ fn finish_items<T: Sc>(rs: &RunSpec<T>, items: Vec<Item<T>>, calls: usize, panic
         }
     }
     RunOut {
+        differs_from_clean: false,
         events: out,
         termination,
         calls,
@@ -615,6 +617,9 @@ fn summarize(rep: &mut Report, runs: &[RunOut], tag: &str) {
         if r.fit_ok {
             rep.count(&format!("{}_fit_ok", tag), 1);
         }
+        if r.differs_from_clean {
+            rep.count("faulty_runs_differing_from_fault_free_run", 1);
+        }
     }
 }
 
@@ -655,6 +660,7 @@ fn gen_and_record<T: Sc>(mode: &str, count: usize, rng: &mut StdRng) -> Vec<RunO
                 let _ = p;
                 let clean = record_run(&base);
                 let k = clean.calls;
+                let clean_events = clean.events.clone();
                 outs.push(clean);
                 let stride = (k / 40).max(1);
                 let mut idx = 0;
@@ -662,7 +668,10 @@ fn gen_and_record<T: Sc>(mode: &str, count: usize, rng: &mut StdRng) -> Vec<RunO
                     for persistent in [false, true] {
                         let mut rs = base.clone();
                         rs.fault = Some((idx, persistent));
-                        outs.push(record_run(&rs));
+                        let mut o = record_run(&rs);
+                        // non-trivial: the injected fault changed the observable behaviour
+                        o.differs_from_clean = o.events != clean_events;
+                        outs.push(o);
                         budget = budget.saturating_sub(1);
                     }
                     idx += stride;
